@@ -1,6 +1,6 @@
 #!/bin/bash
 # full quick run of every claimed check on /repo's current tree; prints one line per check
-cd /verif
+cd "$(dirname "$(readlink -f "$0")")/.."
 for p in $(python3 -c "import json; print(' '.join(c['property_id'] for c in json.load(open('MANIFEST.json'))['checks']))"); do
   s=$(date +%s); out=$(VERIF_SEED=${VERIF_SEED:-0} python3 harness/vcheck.py $p --tier ${1:-quick} 2>&1); rc=$?
   echo "$p rc=$rc $(( $(date +%s) - s ))s $(echo "$out" | grep -c '^KNOWN-FINDING') known :: $(echo "$out" | tail -1)"
